@@ -210,7 +210,174 @@ def sensitivity(args):
     return 0 if not missed else 3
 
 
+def seam(args):
+    """SimSet must be a `set` in everything but iteration order: random
+    operation sequences are applied to a plain set and to a SimSet under a
+    random scheduler; contents, lengths, return values, raised exceptions
+    and the type of derived sets are compared.  Also checks that the model
+    of C16 agrees with brute-force evaluation."""
+    import random
+    from . import simset, c16
+    from .core import Scheduler
+    rng = random.Random(int(os.environ.get('VERIF_SEED', '0')))
+    simset._SCHED[0] = Scheduler(random.Random(1), 'random')
+    vals = [0, 1, 2, 3, 'a', 'b', (1, 2), 2.5, 'zz', -1]
+    bad = 0
+    nops = 0
+    for trial in range(3000):
+        a, b = set(), simset.SimSet()
+        other = set(rng.sample(vals, rng.randint(0, 5)))
+        for _ in range(rng.randint(1, 25)):
+            op = rng.choice(['add', 'discard', 'remove', 'update', 'pop',
+                             'clear', 'ior', 'iand', 'isub', 'ixor', 'or',
+                             'and', 'sub', 'xor', 'rsub', 'copy', 'iter',
+                             'union', 'intersection', 'difference', 'cmp',
+                             'keys'])
+            x = rng.choice(vals)
+            nops += 1
+            ra = rb = None
+            ea = eb = None
+            try:
+                if op in ('add', 'discard', 'remove'):
+                    ra = getattr(a, op)(x)
+                elif op == 'update':
+                    ra = a.update(other)
+                elif op == 'pop':
+                    ra = 'popped' if a.pop() is not None or True else None
+                elif op == 'clear':
+                    ra = a.clear()
+                elif op == 'ior':
+                    a |= other
+                elif op == 'iand':
+                    a &= other
+                elif op == 'isub':
+                    a -= other
+                elif op == 'ixor':
+                    a ^= other
+                elif op == 'or':
+                    ra = a | other
+                elif op == 'and':
+                    ra = a & other
+                elif op == 'sub':
+                    ra = a - other
+                elif op == 'xor':
+                    ra = a ^ other
+                elif op == 'rsub':
+                    ra = other - a
+                elif op == 'copy':
+                    ra = a.copy()
+                elif op == 'iter':
+                    ra = set(list(a))
+                elif op == 'union':
+                    ra = a.union(other, [x])
+                elif op == 'intersection':
+                    ra = a.intersection(other)
+                elif op == 'difference':
+                    ra = a.difference(other)
+                elif op == 'cmp':
+                    ra = (a == other, a <= other, a >= other, x in a, len(a))
+                elif op == 'keys':
+                    ra = a - dict.fromkeys(other).keys()
+            except Exception as e:
+                ea = type(e).__name__
+            try:
+                if op in ('add', 'discard', 'remove'):
+                    rb = getattr(b, op)(x)
+                elif op == 'update':
+                    rb = b.update(other)
+                elif op == 'pop':
+                    rb = 'popped' if b.pop() is not None or True else None
+                elif op == 'clear':
+                    rb = b.clear()
+                elif op == 'ior':
+                    b |= other
+                elif op == 'iand':
+                    b &= other
+                elif op == 'isub':
+                    b -= other
+                elif op == 'ixor':
+                    b ^= other
+                elif op == 'or':
+                    rb = b | other
+                elif op == 'and':
+                    rb = b & other
+                elif op == 'sub':
+                    rb = b - other
+                elif op == 'xor':
+                    rb = b ^ other
+                elif op == 'rsub':
+                    rb = other - b
+                elif op == 'copy':
+                    rb = b.copy()
+                elif op == 'iter':
+                    rb = set(list(b))
+                elif op == 'union':
+                    rb = b.union(other, [x])
+                elif op == 'intersection':
+                    rb = b.intersection(other)
+                elif op == 'difference':
+                    rb = b.difference(other)
+                elif op == 'cmp':
+                    rb = (b == other, b <= other, b >= other, x in b, len(b))
+                elif op == 'keys':
+                    rb = b - dict.fromkeys(other).keys()
+            except Exception as e:
+                eb = type(e).__name__
+            if op == 'pop':
+                # which element is popped is the scheduler's choice
+                if ea != eb or (ea is None and len(a) != len(b)):
+                    bad += 1
+                    print('MISMATCH pop', ea, eb)
+                b.clear()
+                b.update(a)
+                continue
+            same = (ea == eb) and set(a) == set(set.__iter__(b))
+            if isinstance(ra, set) or isinstance(rb, set):
+                same = same and isinstance(rb, set) and \
+                    set(ra) == set(set.__iter__(set(rb)))
+                if op not in ('iter',) and isinstance(rb, set) and \
+                        op != 'keys' and not isinstance(rb, simset.SimSet):
+                    same = False
+            else:
+                same = same and ra == rb
+            if not same:
+                bad += 1
+                print('MISMATCH', op, x, sorted(map(str, a)),
+                      sorted(map(str, set.__iter__(b))), ra, rb, ea, eb)
+    simset._SCHED[0] = None
+    print('seam: {} operations on 3000 random set/SimSet pairs, {} '
+          'mismatches'.format(nops, bad))
+    # C16 model against brute force
+    r2 = random.Random(5)
+    V = ['a', 'b', 'c', 'd', 'e']
+
+    def brute(e, asg):
+        o = e[0]
+        if o == 'v':
+            return asg[e[1]]
+        if o == 'c':
+            return e[1] in (1, True, '1', 'True')
+        if o in ('~', 'not'):
+            return not brute(e[1], asg)
+        vs = [brute(x, asg) for x in e[1:]]
+        return all(vs) if o in ('&', 'and') else any(vs)
+    mb = 0
+    for _ in range(2000):
+        e = c16.gen_expr(r2, 3, r2.sample(V, 3))
+        f = c16.expr_fn(e)
+        for k in range(32):
+            asg = dict((v, bool((k >> j) & 1)) for j, v in enumerate(V))
+            kk = sum((1 << j) for j, v in enumerate(f[0]) if asg[v])
+            if bool((f[1] >> kk) & 1) != brute(e, asg):
+                mb += 1
+    print('c16 model: 2000 random expressions x 32 assignments, {} '
+          'disagreements with brute-force evaluation'.format(mb))
+    return 0 if bad == 0 and mb == 0 else 2
+
+
 def main(args):
     if args.what == 'determinism':
         return determinism(args)
+    if args.what == 'seam':
+        return seam(args)
     return sensitivity(args)
